@@ -374,6 +374,10 @@ func (r *Realm) parseLines(name string, lines []string) (err error) {
 			}
 		}
 
+		if !strings.Contains(line, "=") {
+			// The closing bracket of a nested block: nothing to assign.
+			continue
+		}
 		p := strings.Split(line, "=")
 		key := strings.TrimSpace(strings.ToLower(p[0]))
 		v := strings.TrimSpace(p[1])
